@@ -49,6 +49,8 @@ func (c *c17Oracle) secretsToScan(w *World) map[string]string {
 			if raw, ok := lenientB64(s.Value); ok {
 				add(string(raw), s.Kind+"_token_raw")
 			}
+		case "everify":
+			add(s.Value, "everify_token")
 		}
 	}
 	return m
@@ -70,6 +72,9 @@ func (c *c17Oracle) Check(w *World, o *Obs) []Violation {
 	// in a scratch copy of the list (tokens mailed / shown now)
 	now := map[string]string{}
 	for _, m := range o.Mails {
+		if len(m.Token) >= 8 && m.Kind == "everify" {
+			now[m.Token] = "everify_token"
+		}
 		if len(m.Token) >= 8 && (m.Kind == "confirm" || m.Kind == "recover") {
 			now[m.Token] = m.Kind + "_token"
 			if raw, ok := lenientB64(m.Token); ok {
